@@ -10,7 +10,7 @@ wt = "/tmp/wt/" + tag; so = "/tmp/seed_out/" + tag
 def sh(c, **kw):
     return subprocess.run(c, shell=isinstance(c, str), cwd=wt, stdout=subprocess.PIPE, stderr=subprocess.STDOUT, text=True, **kw)
 head = subprocess.check_output(["git", "-C", "/repo", "rev-parse", "HEAD"], text=True).strip()
-sh("git stash -u -q; git checkout -q --detach %s && git reset -q --hard && git clean -qfd -e target" % head)
+sh("git checkout -q -- . ; git clean -qfd -e target; git checkout -q --detach %s && git reset -q --hard && git clean -qfd -e target" % head)
 os.makedirs(os.path.dirname(os.path.join(wt, dest)), exist_ok=True)
 shutil.copy(os.path.join(so, "demo", demo_src), os.path.join(wt, dest))
 env = dict(os.environ, CARGO_NET_OFFLINE="true")
